@@ -8,9 +8,9 @@
 set -u
 name=$1; patch=$2; demo=$3; feats=$4; shift 4
 base=/tmp/mx/$name
-rm -rf $base $base-target $base-out; mkdir -p /tmp/mx $base-out
+rm -rf $base $base-target $base-out $base-verif; mkdir -p /tmp/mx $base-out
 git -C /repo worktree add -q --detach $base HEAD || exit 2
-cleanup() { git -C /repo worktree remove --force $base 2>/dev/null; rm -rf $base $base-target; }
+cleanup() { git -C /repo worktree remove --force $base 2>/dev/null; rm -rf $base $base-target $base-verif; }
 trap cleanup EXIT
 fa=""; [ "$feats" != "-" ] && fa="--features $feats"
 cd $base
@@ -28,7 +28,9 @@ if [ "$demo" != "-" ]; then
   rm -f tests/zz_demo.rs
 fi
 rm -rf $base/target
-cd /verif
+# Run the checks from a snapshot of the committed /verif so that edits in progress do not interfere.
+rm -rf $base-verif; mkdir -p $base-verif; git -C /verif archive HEAD | tar -x -C $base-verif
+cd $base-verif
 for p in "$@"; do
   BROOD_DIR=$base VERIF_TARGET_DIR=$base-target VERIF_EVIDENCE_DIR=$base-out/evidence VERIF_REPLAYS_DIR=$base-out/replays ./check $p --tier quick > $base-out/check_$p.log 2>&1
   echo "check $p: exit $? $(grep -c '^VIOLATION' $base-out/check_$p.log) violation line(s): $(grep '^VIOLATION' $base-out/check_$p.log | head -2 | cut -c1-260)" | tee -a $base-out/summary.txt
